@@ -1,5 +1,6 @@
 import OrdModel.Proofs.PropsDecompress
 import OrdModel.Proofs.PropsTotal
+import OrdModel.Proofs.PropsRoundtrip
 /-!
 # C28 — inscription properties round-trip and decoding is bounded
 
@@ -8,6 +9,129 @@ lemmas: `OrdModel/Proofs/Props*.lean`.
 -/
 namespace Ord.Props
 open Ord Ord.Cbor
+
+/-! ## Clause 1: inline and packed forms decode to the same properties
+
+`wfProps p` is what `ord` itself builds plus the Rust type invariants: `txids` empty, every
+gallery item has an id (32-byte txid, u32 index) and no leftover packed `index`, trait names
+distinct within each attribute set, strings valid UTF-8, integers in `i64`, lengths `< 2^64`.
+Nothing else is assumed: any number of items, any names/values, any string lengths.
+(Without it the value does NOT round-trip: see `c28_roundtrip_needs_wf`.) -/
+
+/-- `from_cbor(to_inline_cbor(p)) = p` -/
+theorem c28_inline_roundtrip (p : Properties) (hw : wfProps p = true) (bs : Bytes)
+    (h : toInline p = some bs) : fromCbor bs = .ok p := by
+  unfold toInline at h
+  split at h
+  · cases h
+  · cases h; exact fromCbor_inline p hw
+
+/-- `from_cbor(to_packed_cbor(p)) = p`.  (`hmem`: the packed txid string has a `u64` length,
+i.e. fewer than 2^59 items.) -/
+theorem c28_packed_roundtrip (p : Properties) (hw : wfProps p = true)
+    (hmem : p.gallery.length * 32 < 2 ^ 64) (bs : Bytes) (h : toPacked p = .ok (some bs)) :
+    fromCbor bs = .ok p := fromCbor_packed p hw hmem bs h
+
+/-- Both encoders return `None` exactly for the default value, and on well-formed values
+`to_packed_cbor` never hits one of its `assert!`/`unwrap` sites. -/
+theorem c28_encoders_defined (p : Properties) (hw : wfProps p = true) :
+    (toInline p = none ↔ p = {}) ∧ (toPacked p = .ok none ↔ p = {}) ∧ ∃ o, toPacked p = .ok o := by
+  have hw' := (wfProps_iff p).1 hw
+  obtain ⟨htx, hg, ha, hl⟩ := hw'
+  obtain ⟨tx, items, hp, _⟩ := packItems_spec p.gallery hg
+  have hdef : propsIsDefault ({} : Properties) = true := by decide
+  refine ⟨?_, ?_, ?_⟩
+  · unfold toInline
+    constructor
+    · intro h; split at h
+      · rename_i hd; exact propsIsDefault_eq p hd
+      · cases h
+    · intro h; subst h; rfl
+  · unfold toPacked
+    rw [htx]
+    simp only [List.isEmpty_nil, Bool.not_true, Bool.false_eq_true, if_false, hp, bind_ok]
+    constructor
+    · intro h; split at h
+      · rename_i hd; exact propsIsDefault_eq p hd
+      · cases h
+    · intro h; subst h; rfl
+  · unfold toPacked
+    rw [htx]
+    simp only [List.isEmpty_nil, Bool.not_true, Bool.false_eq_true, if_false, hp, bind_ok]
+    split <;> exact ⟨_, rfl⟩
+
+/-- The hypothesis is needed: a value with two traits of the same name is encoded but decodes
+to the default value (duplicate names are a decode error). -/
+theorem c28_roundtrip_needs_wf :
+    ∃ p bs, toInline p = some bs ∧ fromCbor bs = .ok {} ∧ p ≠ {} := by
+  refine ⟨{ attributes := { traits := [([0x61], .null), ([0x61], .null)] } }, _, rfl, ?_, by decide⟩
+  decide
+
+/-! ## Clause 2: the compressed forms
+
+Brotli is an abstract inverse pair: "the decompressor, run over `compressed`, yields `cbor`" is
+the hypothesis `chunks.flatten = cbor` about the chunk stream it produces (non-empty reads
+followed by end of stream).  The exact guard under which the decoder accepts is
+`cbor.length ≤ min(30·compressed.length, 4 000 000)`. -/
+
+theorem c28_compressed_roundtrip (p : Properties) (hw : wfProps p = true)
+    (hmem : p.gallery.length * 32 < 2 ^ 64) (cbor : Bytes)
+    (hc : toInline p = some cbor ∨ toPacked p = .ok (some cbor))
+    (compressed : Bytes) (chunks : List Bytes) (hne : ∀ c ∈ chunks, c ≠ [])
+    (hbrotli : chunks.flatten = cbor)
+    (hguard : cbor.length ≤ min (30 * compressed.length) 4000000) :
+    inscriptionProperties (some compressed) (some BROTLI) (chunks.map .data ++ [.data []]) = .ok p := by
+  have hmax : cbor.length ≤ decompressMax compressed.length := by
+    unfold decompressMax sat64 MAX_PROPERTIES_COMPRESSION_RATIO MAX_COMPRESSED_PROPERTIES_SIZE
+    split <;> omega
+  have hloop := decompressLoop_chunks (decompressMax compressed.length) chunks [] hne
+    (by rw [hbrotli]; simpa using hmax)
+  unfold inscriptionProperties propertiesCbor
+  simp only [ne_eq, not_true_eq_false, if_false, hloop, List.nil_append, hbrotli]
+  rcases hc with hc | hc
+  · exact c28_inline_roundtrip p hw cbor hc
+  · exact c28_packed_roundtrip p hw hmem cbor hc
+
+/-- Beyond the guard the field is ignored: `properties()` is the default value. -/
+theorem c28_compressed_rejected (cbor compressed : Bytes) (chunks : List Bytes)
+    (hne : ∀ c ∈ chunks, c ≠ []) (hbrotli : chunks.flatten = cbor)
+    (hover : cbor.length > min (30 * compressed.length) 4000000) :
+    inscriptionProperties (some compressed) (some BROTLI) (chunks.map .data ++ [.data []]) = .ok {} := by
+  have hmax := decompressMax_le compressed.length
+  simp only [MAX_PROPERTIES_COMPRESSION_RATIO, MAX_COMPRESSED_PROPERTIES_SIZE] at hmax
+  have hloop := decompressLoop_chunks_reject (decompressMax compressed.length) chunks [] hne
+    (by simp) (by rw [hbrotli]; simp; omega)
+  unfold inscriptionProperties propertiesCbor
+  simp only [ne_eq, not_true_eq_false, if_false, hloop]
+
+/-- FINDING (unchanged code): the encoder's guard `len / clen ≤ 30` (integer division) is
+weaker than the decoder's `len ≤ 30·clen`.  Witness replayed on the real code in
+`corpus/C28/brotli.ratio-gap.txt`: title `"x" ++ "a"×598`; its inline CBOR has 606 bytes and
+brotli makes 20 bytes of it; `compress_properties` accepts (606/20 = 30) and the decoder,
+however faithfully brotli decompresses, returns the default value. -/
+def gapWitness : Properties := { attributes := { title := some (0x78 :: List.replicate 598 0x61) } }
+
+set_option maxRecDepth 20000 in
+theorem c28_compressed_roundtrip_fails :
+    wfProps gapWitness = true ∧ gapWitness ≠ {} ∧
+    ∃ cbor, toInline gapWitness = some cbor ∧ cbor.length = 606 ∧ encoderAccepts 606 20 = true ∧
+      ∀ (compressed : Bytes) (chunks : List Bytes), compressed.length = 20 →
+        (∀ c ∈ chunks, c ≠ []) → chunks.flatten = cbor →
+        inscriptionProperties (some compressed) (some BROTLI) (chunks.map .data ++ [.data []]) = .ok {} := by
+  refine ⟨by decide, by decide, _, rfl, by decide, by decide, ?_⟩
+  intro compressed chunks hlen hne hfl
+  refine c28_compressed_rejected _ compressed chunks hne hfl ?_
+  have : (encProperties gapWitness).length = 606 := by decide
+  rw [hlen, this]; decide
+
+/-- `_partial`: with the encoder's own guard instead of the decoder's the compressed round trip
+holds only under the extra hypothesis `len ≤ 30·clen` (which `len / clen ≤ 30` does not give). -/
+theorem c28_encoder_guard_partial (len clen : Nat) (h : encoderAccepts len clen = true)
+    (hextra : len ≤ 30 * clen) : len ≤ min (30 * clen) 4000000 := by
+  unfold encoderAccepts at h
+  have h1 : len ≤ MAX_COMPRESSED_PROPERTIES_SIZE := of_decide_eq_true (Bool.and_eq_true_iff.1 h).1
+  unfold MAX_COMPRESSED_PROPERTIES_SIZE at h1
+  omega
 
 /-! ## Clause 4: a compressed field is never expanded beyond the limits -/
 
@@ -41,6 +165,20 @@ theorem c28_unknown_encoding (value enc : Bytes) (stream : List ReadResult) (h :
 theorem c28_decompressLen_spec (max : Nat) (stream : List ReadResult) :
     decompressLen max (sizes stream) 0 = (decompressLoop max stream []).map List.length := by
   simpa using decompressLen_spec max stream []
+
+/-! Non-vacuity -/
+def exProps : Properties :=
+  { gallery := [{ id := some { txid := List.replicate 32 7, index := 300 },
+                  attributes := { title := some [0x68, 0x69], traits := [([0x61], .int (-5)), ([0x62], .str [0xc3, 0xa9])] } },
+                { id := some { txid := List.replicate 32 7, index := 0 } }],
+    attributes := { title := some [] } }
+example : wfProps exProps = true := by decide
+example : exProps ≠ {} := by decide
+example : ∃ bs, toPacked exProps = .ok (some bs) := by
+  obtain ⟨h1, h2, o, ho⟩ := c28_encoders_defined exProps (by decide)
+  cases o with
+  | none => exact absurd (h2.1 ho) (by decide)
+  | some bs => exact ⟨bs, ho⟩
 
 example : propertiesCbor (some [1, 2, 3]) (some BROTLI) [.data [7, 7], .data [8], .data []] = some [7, 7, 8] := by
   decide
